@@ -247,6 +247,14 @@ def coqchk(prop_id, timeout=2400, modules=None):
     return {"ok": rc == 0, "seconds": round(time.time() - t), "axioms": axioms[:60]}
 
 
+def limit_memory():
+    """preexec_fn for implementation processes: cap the address space so that a non-terminating, allocating run (an error
+    recovery loop that makes no progress, an unbounded doubling) aborts within seconds instead of exhausting the machine"""
+    import resource
+    cap = 6 * 1024 ** 3
+    resource.setrlimit(resource.RLIMIT_AS, (cap, cap))
+
+
 # ------------------------------------------------------------------ harness runs
 
 def run_harness(mode, cases, budget=20000, depth=120, tag="h"):
@@ -270,10 +278,18 @@ def run_harness(mode, cases, budget=20000, depth=120, tag="h"):
     os.makedirs(d, exist_ok=True)
     results = [None] * n
 
+    aborts = [0]
+
     def shard(k):
         lo, hi = bounds[k]
         pos = lo
         while pos < hi:
+            if aborts[0] >= 12:
+                # the implementation keeps dying (each abort of a non-terminating, allocating run costs tens of seconds):
+                # a dozen failing inputs are enough; the rest of the cases are left unanswered (treated as skipped)
+                for j in range(pos, hi):
+                    results[j] = "SKIPPED-AFTER-ABORTS"
+                return
             cf = os.path.join(d, "c%d.txt" % k)
             rf = os.path.join(d, "r%d.txt" % k)
             of = os.path.join(d, "o%d.txt" % k)
@@ -285,7 +301,7 @@ def run_harness(mode, cases, budget=20000, depth=120, tag="h"):
                 try:
                     # stdout and stderr are regular files: the harness measures how much each case writes to them directly
                     p = subprocess.run([HARNESS_BIN, mode, cf, rf, str(budget), str(depth)], stdin=subprocess.DEVNULL,
-                                       stdout=o, stderr=oe, timeout=1200, env=ENV)
+                                       stdout=o, stderr=oe, timeout=600, env=ENV, preexec_fn=limit_memory)
                     rc = p.returncode
                 except subprocess.TimeoutExpired:
                     rc = -999
@@ -299,6 +315,7 @@ def run_harness(mode, cases, budget=20000, depth=120, tag="h"):
                 # the process died on case `pos` (abort / stack overflow / timeout)
                 err = open(of + ".err", errors="replace").read() if os.path.exists(of + ".err") else ""
                 results[pos] = "ABORT rc=%d%s" % (rc, " STACKOVERFLOW" if "has overflowed its stack" in err else "")
+                aborts[0] += 1
                 pos += 1
 
     with ThreadPoolExecutor(max_workers=nshards) as ex:
@@ -370,7 +387,7 @@ def run_coq_cases(prop_id, imports, items, per_shard=150, timeout=1500, prelude=
             mism += [int(x) for x in re.findall(r"\d+", m.group(1).replace("%N", ""))]
     observed = {}
     if mism:
-        show = sorted(mism)[:40]
+        show = sorted(mism)[:6]
         p = os.path.join(d, "show.v")
         with open(p, "w") as f:
             f.write(header)
